@@ -267,7 +267,7 @@ def tlc_jobs(tier: str, seed: int) -> dict[tuple[str, str], dict[str, Any]]:
     j[("MC_C3", "Gen_C3_5.cfg")] = dict(workers=2, coverage=False, timeout=1800)
     if tier != "quick":
         j[("MC_C3", "MC_C3_6.cfg")] = dict(timeout=3600, workers=8)
-        j[("MC_C3", "Gen_C3_6sim.cfg")] = dict(workers=2, coverage=False, simulate="num=12000", depth=7, seed=seed * 7919 + 13,
+        j[("MC_C3", "Gen_C3_6sim.cfg")] = dict(workers=2, coverage=False, simulate="num=2000", depth=7, seed=seed * 7919 + 13,
                                                timeout=3600)
     j[("MC_Reach", "MC_Reach.cfg")] = dict(coverage=False, workers=4, timeout=1800)
     j[("MC_Reach", "Gen_Reach.cfg")] = dict(workers=4, timeout=1800)
